@@ -25,6 +25,11 @@ func printer_Fprint(w io.Writer, n ast.Node) {
 
 // lookupByName finds a program variable by name in a state (innermost declaration wins).
 func (c *FnCtx) lookupByName(st *State, name string) (Val, bool) {
+	if nn, ok := c.renames[name]; ok {
+		// a local the contract names was renamed since the contracts were written (bound by
+		// declaration position, see locals.go)
+		name = nn
+	}
 	if st != nil {
 		var best types.Object
 		for o := range st.env {
